@@ -136,9 +136,12 @@ def _c06(seed, quick):
                        "refilled without previous victims), that each victim is the minimum-estimate key of its sample, that it was evicted iff its estimate does "
                        "not exceed the incoming key's, that eviction stopped as soon as space sufficed, that the delete hook saw exactly the victims, the final "
                        "status against the resulting space and the total against the arithmetic. Fits => accepted with zero victims; over-weight => rejected "
-                       "for that reason, nothing changed. End-to-end S-mode pressure histories add the status clauses through CacheD.",
+                       "for that reason, nothing changed. End-to-end: in S-mode pressure histories through the real CacheD (pool 1 x buffer 1-2, so that hits reach the sketch through "
+                       "the real buffering / consumer pipeline) the same replay is applied to every put that goes to admission: the access queue is drained, the charged keys and "
+                       "their estimates are read through the accessors, and the recorded steps, the status and the total afterwards are judged against them.",
         "assumptions": ["the tie rule (heavier first) is recorded as coverage, not enforced: the statement only orders by estimate", "no access is being applied while a decision runs (the access queue is drained first)"],
-        "require": ["decisions:multi-victim-accept", "decisions:partial-evict-reject", "decisions:over-weight", "decisions:fits", "decisions_with_a_tie_for_the_coldest_key"],
+        "require": ["decisions:multi-victim-accept", "decisions:partial-evict-reject", "decisions:over-weight", "decisions:fits", "decisions_with_a_tie_for_the_coldest_key",
+                    "end_to_end_decisions:evict-one-accept", "end_to_end_decisions_with_a_warm_incoming_key", "end_to_end_decisions_with_warm_residents"],
     }
 
 
